@@ -204,7 +204,12 @@ class Weaver:
             j = gc + 1
         assert toks[j].text == "(", "unit %s: expected ( in signature" % unit.name
         pc = pairs[j]
+        mut_self = toks[j + 1].text == "mut" and toks[j + 2].text == "self"
         params_txt = self._render_tokens(j, pc, subst, fired, unit, ctx)
+        if mut_self:
+            # R14: Verus does not take `mut self`; a `mut` parameter is a local rebinding
+            params_txt = re.sub(r"^\(\s*mut\s+self\b", "(self", params_txt)
+            fired("R14:mut-self")
         j = pc + 1
         ret_txt = ""
         if toks[j].text == "->":
@@ -308,6 +313,14 @@ class Weaver:
         for ordn, text in unit.loops.items():
             kw, hb, hc = loops[ordn - 1]
             text = expand(text, ctx)
+            mi = re.match(r"^\s*iter:\s*(\w+)\s*\n", text)
+            if mi:
+                # name the ghost iterator of a `for` loop: `for x in NAME: expr`
+                text = text[mi.end():]
+                kin = kw + 1
+                while toks[kin].text != "in":
+                    kin += 1
+                add_after(kin, " " + mi.group(1) + ": ", "loop %d iter" % ordn)
             add_before(hb, "\n" + text, "loop %d" % ordn)
             for part in re.split(r"\b(?:invariant_except_break|invariant|ensures|decreases)\b", text):
                 ninv += len(split_clauses(part))
@@ -391,7 +404,13 @@ class Weaver:
             replace[s] = (gc + 2, "%dusize" % (INT_BITS[ty] // 8), "src", None)
             fired("R3:size_of")
 
-        body_segs = self._render_range(bo, bc, subst, fired, unit, ctx, ins_before, ins_after, replace)
+        if mut_self:
+            add_after(bo, "\nlet mut self_ = self;", "R14")
+            self._self_rename = True
+        try:
+            body_segs = self._render_range(bo, bc, subst, fired, unit, ctx, ins_before, ins_after, replace)
+        finally:
+            self._self_rename = False
         w.segs.extend(body_segs)
         w.segs.append(Seg("\n", "glue"))
         w.rules = sorted(rules.items())
@@ -406,6 +425,8 @@ class Weaver:
         t = toks[i]
         if t.kind != "id":
             return t.text, 0
+        if t.text == "self" and getattr(self, "_self_rename", False):
+            return "self_", 0
         prev = toks[i - 1]
         nxt = toks[i + 1]
         if t.text in subst and not (prev.kind == "p" and prev.text in (".", "::")):
@@ -578,6 +599,21 @@ class Weaver:
         w.segs.append(Seg("%s\npub %s %s%s %s\n" % (attrs, kind, name, gen, body), "src"))
         w.rules = [("R9:pub-widen", 1), ("R1:drop-bounds", 1)]
         return w
+
+    def impl_assoc_types(self, unit, ctx):
+        """`type X = ...;` members of the source impl block of a fn unit (emitted once per impl block)"""
+        mod, header, name = unit.source
+        hn = norm(tokenize(expand(header, ctx)))
+        items = [it for it in self.idx.items if it.mod == mod and it.kind in ("impl",) and it.header == hn]
+        if len(items) != 1:
+            return ""
+        it = items[0]
+        subst = {k: expand(v, ctx) for k, v in unit.subst.items()}
+        out = []
+        for (kw, nm, a, b) in it.consts:
+            if kw == "type":
+                out.append(self._render_tokens(a, b, subst, lambda *x: None, unit, ctx) + "\n")
+        return "".join(out)
 
     def weave_consts(self, unit, ctx):
         """all associated consts of one inherent impl block"""
